@@ -41,7 +41,14 @@ func (f *Listx) Call(s *slip.Scope, args slip.List, depth int) (result slip.Obje
 	default:
 		list := make(slip.List, len(args))
 		copy(list, args)
-		list[len(list)-1] = slip.Tail{Value: list[len(list)-1]}
+		switch last := list[len(list)-1].(type) {
+		case nil:
+			list = list[:len(list)-1]
+		case slip.List:
+			list = append(list[:len(list)-1], last...)
+		default:
+			list[len(list)-1] = slip.Tail{Value: last}
+		}
 		result = list
 	}
 	return
